@@ -285,7 +285,8 @@ def shrink(case, fl):
                     break
             except Exception:
                 pass
-    return dict(case, ops=ops, name=case.get("name", "") + "(shrunk)")
+    return dict(case, ops=ops, skip=0, lite=False, name=case.get("name", "") + "(shrunk)") if case.get("kind", "").startswith("h2") \
+        else dict(case, ops=ops, name=case.get("name", "") + "(shrunk)")
 
 
 def neighbours(case, rng):
